@@ -102,10 +102,11 @@ func c07History(r *hx.Run, w *W, ps *plans, rnd *rand.Rand, in c07Inst, hi int) 
 	var trace []interface{}
 	defer ps.del(uri)
 	kinds := []string{"nocache", "nocc", "5xx", "abort", "truncate", "cacheable"}
+	probeKinds := append(append([]string{}, kinds...), "client_abort")
 	passPeriods, boundaryProbes, fullOverlap := 0, 0, 0
 	for pi := 0; pi < periods && !r.TooMany(); pi++ {
 		// the probe that starts this period
-		probe := ans{Kind: kinds[rnd.Intn(len(kinds))], T: []int64{1, 2, 7}[rnd.Intn(3)]}
+		probe := ans{Kind: probeKinds[rnd.Intn(len(probeKinds))], T: []int64{1, 2, 7}[rnd.Intn(3)]}
 		if pi == 0 && probe.Kind == "cacheable" {
 			probe.Kind = "nocache"
 		}
@@ -151,6 +152,33 @@ func c07History(r *hx.Run, w *W, ps *plans, rnd *rand.Rand, in c07Inst, hi int) 
 			stateBefore := m.State
 			modelBefore := m.String()
 			before := w.Farm.LogLen()
+			if a.Kind == "client_abort" && stateBefore == stNone {
+				// the probe is a single request whose client drops the connection while the upstream is
+				// still working: the fetch has failed, the key must be hit-for-pass afterwards
+				gate := make(chan struct{})
+				ps.set(uri, &plan{Seq: []ans{{Kind: "nocache"}}, Gate: func(*hx.Fetch) <-chan struct{} { return gate }})
+				quitter := hx.NewClient(w.Clock.Now)
+				qdone := make(chan struct{})
+				savedBefore := w.Pts.Count("hfp.saved") + w.Pts.Count("cacheable.saved")
+				go func() {
+					defer close(qdone)
+					quitter.Do(hx.Req{Addr: in.addr, Host: "c07.example", URI: uri, Timeout: 10 * time.Second})
+				}()
+				if !hx.WaitUntil(10*time.Second, func() bool { return w.Farm.InflightKey(key) == 1 }) {
+					r.Inconclusive("C07: aborted probe did not reach the origin")
+				}
+				quitter.Abort()
+				<-qdone
+				close(gate)
+				hx.WaitUntil(10*time.Second, func() bool { return w.Pts.Count("hfp.saved")+w.Pts.Count("cacheable.saved") > savedBefore })
+				m.afterFetch(0, ans{Kind: "nocache"}, now)
+				r.Add("probes_whose_client_went_away", 1)
+				trace = append(trace, map[string]interface{}{"step": st.desc, "now": now, "answer": "client_abort", "model_after": m.String()})
+				continue
+			}
+			if a.Kind == "client_abort" {
+				a.Kind = "nocache"
+			}
 			res, maxIn, parked, settled, infAtSettle := heldBurst(w, ps, uri, key, in, n, a)
 			fetches := w.Farm.LogSince(before)
 			var fs []*hx.Fetch
